@@ -121,7 +121,7 @@ func f3() {
 }
 
 // further fact families are registered here as they are built
-func extra() { f3(); f7() }
+func extra() { f2(); f3(); f7() }
 
 // F7: per clone function of workflow/utils/clone/clone.go, the fields that are always copied (keys of
 // the composite literal + assignments `x.F = …` outside any `if opts.keepState`) and the fields copied
@@ -228,4 +228,81 @@ func f7() {
 	}
 	b.WriteString("]\n\nend Coercion.Generated.F7\n")
 	write("F7.lean", b.String())
+}
+
+// F2: routing of the engine state machines: for every state function (a method taking and returning
+// statemachine.Request) in sm.go, final.go, sm/recovery.go, actions.go, execute/recovery.go, the set
+// of states it assigns to req.Next ("nil" = explicit nil; the implicit "Next left nil" exit is not
+// listed).
+func f2() {
+	files := []struct{ rel, tag string }{
+		{"internal/execute/sm/sm.go", "sm"}, {"internal/execute/sm/final.go", "final"}, {"internal/execute/sm/recovery.go", "sm"},
+		{"internal/execute/sm/actions/actions.go", "actions"}, {"internal/execute/recovery.go", "startup"},
+	}
+	type row struct {
+		name string
+		next []string
+	}
+	var rows []row
+	for _, fl := range files {
+		_, f := parseFile(fl.rel)
+		if f == nil {
+			continue
+		}
+		for _, d := range f.Decls {
+			fn, ok := d.(*ast.FuncDecl)
+			if !ok || fn.Recv == nil || fn.Body == nil || fn.Type.Params == nil || len(fn.Type.Params.List) != 1 {
+				continue
+			}
+			// parameter type statemachine.Request[...]
+			isState := false
+			if ie, ok := fn.Type.Params.List[0].Type.(*ast.IndexExpr); ok {
+				if se, ok := ie.X.(*ast.SelectorExpr); ok && se.Sel.Name == "Request" {
+					isState = true
+				}
+			}
+			if !isState {
+				continue
+			}
+			set := map[string]bool{}
+			ast.Inspect(fn.Body, func(n ast.Node) bool {
+				as, ok := n.(*ast.AssignStmt)
+				if !ok || len(as.Lhs) != 1 || len(as.Rhs) != 1 {
+					return true
+				}
+				sel, ok := as.Lhs[0].(*ast.SelectorExpr)
+				if !ok || sel.Sel.Name != "Next" {
+					return true
+				}
+				switch r := as.Rhs[0].(type) {
+				case *ast.SelectorExpr:
+					set[r.Sel.Name] = true
+				case *ast.Ident:
+					set[r.Name] = true
+				}
+				return true
+			})
+			var next []string
+			for k := range set {
+				next = append(next, k)
+			}
+			sort.Strings(next)
+			rows = append(rows, row{fl.tag + "|" + fn.Name.Name, next})
+		}
+	}
+	sort.Slice(rows, func(i, j int) bool { return rows[i].name < rows[j].name })
+	var b strings.Builder
+	b.WriteString("namespace Coercion.Generated.F2\n\n")
+	b.WriteString("/-- (machine, state function, states it may assign to req.Next) -/\n")
+	b.WriteString("def succ : List (String × String × List String) := [\n")
+	for i, r := range rows {
+		parts := strings.SplitN(r.name, "|", 2)
+		fmt.Fprintf(&b, "  (%s, %s, %s)", leanStr(parts[0]), leanStr(parts[1]), leanStrList(r.next))
+		if i < len(rows)-1 {
+			b.WriteString(",")
+		}
+		b.WriteString("\n")
+	}
+	b.WriteString("]\n\nend Coercion.Generated.F2\n")
+	write("F2.lean", b.String())
 }
